@@ -248,6 +248,11 @@ def numeric_kernel_oracles(rng, res, nmax=200, quick=True):
         xmin = round_sig(rnd(rng, -1, 1)); L = round_sig(rnd(rng, 0.5, 7))
         D = spectral_diff_matrix(n, xmin=xmin, xmax=xmin + L)
         x = xmin + L * np.arange(n) / n
+        # the interval may be given positionally (n, xmin, xmax) or by keyword, and by default is [0, 2 pi)
+        if not np.array_equal(np.asarray(spectral_diff_matrix(n, xmin, xmin + L)), np.asarray(D)):
+            res['violations'].append(dict(key='D:positional', what='spectral_diff_matrix(%d, a, b) called positionally differs from spectral_diff_matrix(%d, xmin=a, xmax=b)' % (n, n), n=n, xmin=xmin, L=L))
+        if not np.array_equal(np.asarray(spectral_diff_matrix(n)), np.asarray(spectral_diff_matrix(n, xmin=0, xmax=2 * np.pi))):
+            res['violations'].append(dict(key='D:default', what='spectral_diff_matrix(%d) differs from the matrix of the interval [0, 2 pi)' % n, n=n))
         # constants, antisymmetry, circulant
         if np.max(np.abs(D @ np.ones(n))) > 1e-9 * max(1.0, np.max(np.abs(D))) * n:
             res['violations'].append(dict(key='D:constants', what='spectral_diff_matrix(%d) does not annihilate constants' % n))
